@@ -15,6 +15,7 @@ from common import fx, unfx, rq, enc_list, close
 from props.c05 import ref_fit, allclose, fxs, bits, unf_opt, guard, frame_hash, mixed_dataset, relabel, plan_prob
 
 REQUIRED = ['numer_order_free', 'cond_const_eq_uncond', 'stoch_iptw_const_eq_uncond', 'stoch_iptw_order_free', 'mc_assign_order_free', 'gf_assign_order_free', 'p_one_zero',
+            'gf_assign_empty_condition', 'gf_assign_iff_drawn',
             'gf_p_one_zero', 'tmle_mc_degenerate', 'stoch_iptw_mixture', 'mc_mixture_realised', 'mc_average_mixture',
             'tmle_eps_zero',
             # ties to the source (Props/C14_Gen, C14_GfStoch): generated definitions = the model
